@@ -31,6 +31,8 @@ P = "SqlglotModel.Properties.C16."
 THEOREMS = [P + n for n in [
     "coerce_idem", "coerce_comm", "coerce_assoc", "coerce_cross_chain_first_wins_witness",
     "coerce_decimalP_absorbs", "decimal_params_never_computed", "decimal_arith_engine_class",
+    "extra_table_ok", "literal_typing", "int_literal_overflow_disagrees_witness", "predicates_are_boolean", "try_cast_is_cast",
+    "argument_typed_functions_keep_type", "aggregate_classes_exact", "array_element_type",
     "leaf_table_agrees", "un_table_exact", "bin_table_exact", "tern_cond_irrelevant", "tern_table_exact", "nary_table_ok", "tables_ok",
     "depth1_exact_un", "depth1_exact_bin", "depth1_exact_tern", "every_family_inhabited",
     "rel_sound", "class_agrees", "final_class_agrees", "int_never_narrower",
@@ -69,13 +71,20 @@ CAST_SQL = {"boolean": "BOOLEAN", "tinyint": "TINYINT", "smallint": "SMALLINT", 
 
 UN_WRAP = ["over", "filter"]  # wrappers around an aggregate; the engine side is the identity (A-duck-wrap), no table
 UN_PLAIN = ["neg", "not", "isNull", "length", "upper", "lower", "abs", "sqrt", "ln", "exp", "sign", "ceil", "floor", "round",
-            "year", "month", "day", "extractYear", "count", "sum", "min", "max", "avg"] + UN_WRAP
-UN = UN_PLAIN + ["cast_" + t for t in CAST_TARGETS]
+            "year", "month", "day", "extractYear", "count", "sum", "min", "max", "avg",
+            "anyValue", "stddev", "variance", "boolAnd", "boolOr", "groupConcat", "approxDistinct",
+            "lag", "lead", "firstValue", "lastValue", "subq", "exists"] + UN_WRAP
+UN = UN_PLAIN + ["cast_" + t for t in CAST_TARGETS] + ["tryCast_" + t for t in CAST_TARGETS]
 BIN = ["add", "sub", "mul", "div", "intdiv", "mod", "pow", "eq", "neq", "lt", "le", "gt", "ge", "and", "or", "dpipe", "like",
-       "coalesce", "nullif", "concat", "greatest", "least", "corr"]
+       "coalesce", "nullif", "concat", "greatest", "least", "corr", "isDistinct", "ilike", "arrayElem"]
 TERN = ["caseWhen", "iff"]
 NARY = ["coalesce", "greatest", "least", "caseN"]
-AGG = {"count", "sum", "min", "max", "avg"}
+PRED3 = ["between", "inList"]
+WIN0 = {"rowNumber": "ROW_NUMBER() OVER ()", "rank": "RANK() OVER ()", "denseRank": "DENSE_RANK() OVER ()",
+        "cumeDist": "CUME_DIST() OVER ()", "percentRank": "PERCENT_RANK() OVER ()"}
+NUMLIT = {"big": "3000000000", "huge": "99999999999999999999", "overflow": "1" * 40, "sci": "1e10"}
+PRED3_SQL = {"between": "{a} BETWEEN {b} AND {c}", "inList": "{a} IN ({B}, {C})"}
+AGG = {"count", "sum", "min", "max", "avg", "anyValue", "stddev", "variance", "boolAnd", "boolOr", "groupConcat", "approxDistinct"}
 
 UN_SQL = {
     "neg": "-{a}", "not": "NOT {a}", "isNull": "{a} IS NULL", "length": "LENGTH({A})", "upper": "UPPER({A})",
@@ -83,15 +92,21 @@ UN_SQL = {
     "extractYear": "EXTRACT(YEAR FROM {a})", "count": "COUNT({A})", "sum": "SUM({A})", "min": "MIN({A})", "max": "MAX({A})",
     "avg": "AVG({A})", "ceil": "CEIL({A})", "floor": "FLOOR({A})", "round": "ROUND({A})",
     "over": "{A} OVER ()", "filter": "{A} FILTER (WHERE t.bo)",
+    "anyValue": "ANY_VALUE({A})", "stddev": "STDDEV({A})", "variance": "VARIANCE({A})", "boolAnd": "BOOL_AND({A})",
+    "boolOr": "BOOL_OR({A})", "groupConcat": "STRING_AGG({A}, ',')", "approxDistinct": "APPROX_COUNT_DISTINCT({A})",
+    "lag": "LAG({A}) OVER ()", "lead": "LEAD({A}) OVER ()", "firstValue": "FIRST_VALUE({A}) OVER ()",
+    "lastValue": "LAST_VALUE({A}) OVER ()", "subq": "(SELECT {A} FROM t)", "exists": "EXISTS(SELECT {A} FROM t)",
 }
 for _t in CAST_TARGETS:
     UN_SQL["cast_" + _t] = "CAST({A} AS " + CAST_SQL[_t] + ")"
+    UN_SQL["tryCast_" + _t] = "TRY_CAST({A} AS " + CAST_SQL[_t] + ")"
 BIN_SQL = {
     "add": "{a} + {b}", "sub": "{a} - {b}", "mul": "{a} * {b}", "div": "{a} / {b}", "intdiv": "{a} // {b}", "mod": "{a} % {b}", "pow": "{a} ** {b}",
     "eq": "{a} = {b}", "neq": "{a} <> {b}", "lt": "{a} < {b}", "le": "{a} <= {b}", "gt": "{a} > {b}", "ge": "{a} >= {b}",
     "and": "{a} AND {b}", "or": "{a} OR {b}", "dpipe": "{a} || {b}", "like": "{a} LIKE {b}",
     "coalesce": "COALESCE({A}, {B})", "nullif": "NULLIF({A}, {B})", "concat": "CONCAT({A}, {B})",
     "greatest": "GREATEST({A}, {B})", "least": "LEAST({A}, {B})", "corr": "CORR({A}, {B})",
+    "isDistinct": "{a} IS DISTINCT FROM {b}", "ilike": "{a} ILIKE {b}", "arrayElem": "[{A}, {B}][1]",
 }
 TERN_SQL = {"caseWhen": "CASE WHEN {C} THEN {A} ELSE {B} END", "iff": "IF({C}, {A}, {B})"}
 
@@ -101,7 +116,7 @@ STR_LITS = {"other": "'abc'", "num": "'1'", "isoDate": "'2020-01-02'", "isoDatet
 
 
 def is_leaf(e):
-    return e[0] not in ("un", "bin", "tern", "nary")
+    return e[0] not in ("un", "bin", "tern", "nary", "pred3")
 
 
 def render_nary(k, xs):
@@ -136,6 +151,10 @@ def render(e) -> str:
         return "INTERVAL 1 DAY" if e[1] else "INTERVAL 1 HOUR"
     if k == "raw":  # engine-only representative (never sent to the model)
         return e[1]
+    if k == "numlit":
+        return NUMLIT[e[1]]
+    if k == "win0":
+        return WIN0[e[1]]
 
     def sub(x, paren):
         s = render(x)
@@ -149,6 +168,8 @@ def render(e) -> str:
         return TERN_SQL[e[1]].format(C=sub(e[2], False), A=sub(e[3], False), B=sub(e[4], False))
     if k == "nary":
         return render_nary(e[1], [sub(x, False) for x in e[2:]])
+    if k == "pred3":
+        return PRED3_SQL[e[1]].format(a=sub(e[2], True), b=sub(e[3], True), c=sub(e[4], True), B=sub(e[3], False), C=sub(e[4], False))
     raise HarnessError(f"render: {e!r}")
 
 
@@ -163,7 +184,7 @@ def to_model(e):
         return ["col", "d:" + e[1], e[2]]
     if k == "bigLit":
         return ["int"]
-    if k in ("un", "bin", "tern", "nary"):
+    if k in ("un", "bin", "tern", "nary", "pred3"):
         return [k, e[1]] + [to_model(x) for x in e[2:]]
     return list(e)
 
@@ -210,6 +231,27 @@ def duck_typeof(sql_expr: str) -> str:
         r = con.execute(f"SELECT typeof({sql_expr}) FROM t").fetchone()[0]
     except Exception as ex:  # noqa
         r = "ERR " + type(ex).__name__
+    c[sql_expr] = r
+    return r
+
+
+def duck_typeof_bind(sql_expr: str) -> str:
+    """the same answer as duck_typeof, ten times faster: the bound result type of `SELECT <expr> FROM t` (no execution). A relation
+    column of the SQLNULL type is reported as INTEGER, so INTEGER answers are confirmed with typeof(); expressions that bind but
+    fail at execution (CAST('abc' AS INT)) count as accepted here — the engine TABLE records the bound type, the search
+    oracle (duck_typeof) skips whatever fails to execute."""
+    con = duck()
+    c = _DUCK.setdefault("bind_cache", {})
+    if sql_expr in c:
+        return c[sql_expr]
+    try:
+        r = str(con.sql(f"SELECT {sql_expr} FROM t").types[0])
+    except Exception as ex:  # noqa
+        r = "ERR " + type(ex).__name__
+    if r == "INTEGER":
+        r2 = duck_typeof(sql_expr)
+        if not r2.startswith("ERR"):
+            r = r2
     c[sql_expr] = r
     return r
 
@@ -316,7 +358,7 @@ def engine_table():
             for a in reps[ca]:
                 e = ["un", op, a]
                 s = render(e)
-                res.append((ety_of_duck(duck_typeof(s)), s))
+                res.append((ety_of_duck(duck_typeof_bind(s)), s))
                 depth1.append(e)
             settle(("un", op, ca), res)
     for op in BIN + TERN:
@@ -327,9 +369,25 @@ def engine_table():
                     for b in reps[cb]:
                         e = ["bin", op, a, b] if op in BIN else ["tern", op, ["col", "bo"], a, b]
                         s = render(e)
-                        res.append((ety_of_duck(duck_typeof(s)), s))
+                        res.append((ety_of_duck(duck_typeof_bind(s)), s))
                         depth1.append(e)
                 settle(("bin", op, ca, cb), res)
+    # --- three-operand predicates (one representative per class), argument-less window functions, number literals
+    for op in PRED3:
+        for ca in classes:
+            for cb in classes:
+                for cc in classes:
+                    e = ["pred3", op, reps[ca][0], reps[cb][0], reps[cc][0]]
+                    sql = render(e)
+                    settle(("pred3", op, ca, cb, cc), [(ety_of_duck(duck_typeof_bind(sql)), sql)])
+                    if not has_raw(e):
+                        depth1.append(e)
+    for k in WIN0:
+        table[("win0", k)] = ety_of_duck(duck_typeof_bind(WIN0[k]))
+        depth1.append(["win0", k])
+    for k in NUMLIT:
+        table[("numlit", k)] = ety_of_duck(duck_typeof_bind(NUMLIT[k]))
+        depth1.append(["numlit", k])
     # --- n-ary: the pairwise join of branch classes (two string literals stay a string literal), checked as a fold on triples
     for k in NARY:
         for ca in classes:
@@ -338,7 +396,7 @@ def engine_table():
                 for a in reps[ca][:2]:
                     for b in reps[cb][:2]:
                         sql = render(["nary", k, a, b])
-                        res.append((ety_of_duck(duck_typeof(sql)), sql))
+                        res.append((ety_of_duck(duck_typeof_bind(sql)), sql))
                 settle(("join", k, ca, cb), res)
                 if ca == "strlit" and cb == "strlit" and table[("join", k, ca, cb)] == "text":
                     table[("join", k, ca, cb)] = "strlit"
@@ -350,7 +408,7 @@ def engine_table():
             for cb in classes:
                 for cc in classes:
                     e = ["nary", k, reps[ca][0], reps[cb][0], reps[cc][0]]
-                    real = ety_of_duck(duck_typeof(render(e)))
+                    real = ety_of_duck(duck_typeof_bind(render(e)))
                     model = J(J(ca, cb), cc)
                     model = "text" if model == "strlit" else model
                     if real != "error" and model != "error" and real != model:
@@ -364,7 +422,7 @@ def engine_table():
                 for a in reps[ca]:
                     inner = ["un", agg, a]
                     e = ["un", w, inner]
-                    t_in, t_out = duck_typeof(render(inner)), duck_typeof(render(e))
+                    t_in, t_out = duck_typeof_bind(render(inner)), duck_typeof_bind(render(e))
                     if not t_out.startswith("ERR") and ety_of_duck(t_in) != ety_of_duck(t_out):
                         issues.append({"op": ["wrap", w, agg, ca], "classes_seen": [t_in, t_out], "examples": [render(e)]})
                     depth1.append(e)
@@ -400,6 +458,32 @@ NODEC_SAMPLES = {
     "window": ("SUM(t.i) OVER ()", "Window", lambda n: [n.this]),
     "filter": ("SUM(t.i) FILTER (WHERE t.bo)", "Filter", lambda n: [n.this]),
     "cast": ("CAST(t.i AS BIGINT)", "Cast", lambda n: [n.this]),
+    "tryCast": ("TRY_CAST(t.i AS BIGINT)", "TryCast", lambda n: [n.this]),
+    # ANY_VALUE parses to IgnoreNulls(AnyValue): the wrapper is typed by _annotate_unary (its operand's type)
+    "anyValue": ("ANY_VALUE(t.i)", "AnyValue", lambda n: [n.this], lambda n: n.this if type(n).__name__ == "IgnoreNulls" else n),
+    "stddev": ("STDDEV(t.i)", "Stddev", lambda n: [n.this]),
+    "variance": ("VARIANCE(t.i)", "Variance", lambda n: [n.this]),
+    "logicalAnd": ("BOOL_AND(t.bo)", "LogicalAnd", lambda n: [n.this]),
+    "logicalOr": ("BOOL_OR(t.bo)", "LogicalOr", lambda n: [n.this]),
+    "groupConcat": ("STRING_AGG(t.v, ',')", "GroupConcat", lambda n: [n.this]),
+    "approxDistinct": ("APPROX_COUNT_DISTINCT(t.i)", "ApproxDistinct", lambda n: [n.this]),
+    "lag": ("LAG(t.i) OVER ()", "Lag", lambda n: [n.this], lambda n: n.this),
+    "lead": ("LEAD(t.i) OVER ()", "Lead", lambda n: [n.this], lambda n: n.this),
+    "firstValue": ("FIRST_VALUE(t.i) OVER ()", "FirstValue", lambda n: [n.this], lambda n: n.this),
+    "lastValue": ("LAST_VALUE(t.i) OVER ()", "LastValue", lambda n: [n.this], lambda n: n.this),
+    "subquery": ("(SELECT t.i FROM t)", "Subquery", lambda n: [n.this.selects[0]]),
+    "exists": ("EXISTS(SELECT t.i FROM t)", "Exists", lambda n: []),
+    "between": ("t.i BETWEEN t.i AND t.bi", "Between", lambda n: []),
+    "in_": ("t.i IN (t.i, t.bi)", "In", lambda n: []),
+    "rowNumber": ("ROW_NUMBER() OVER ()", "RowNumber", lambda n: [], lambda n: n.this),
+    "rank": ("RANK() OVER ()", "Rank", lambda n: [], lambda n: n.this),
+    "denseRank": ("DENSE_RANK() OVER ()", "DenseRank", lambda n: [], lambda n: n.this),
+    "cumeDist": ("CUME_DIST() OVER ()", "CumeDist", lambda n: [], lambda n: n.this),
+    "percentRank": ("PERCENT_RANK() OVER ()", "PercentRank", lambda n: [], lambda n: n.this),
+    "nullSafeNeq": ("t.i IS DISTINCT FROM t.bi", "NullSafeNEQ", None),
+    "ilike": ("t.v ILIKE t.v", "ILike", None),
+    "array": ("[t.i, t.bi]", "Array", lambda n: list(n.expressions)),
+    "bracket": ("[t.i, t.bi][1]", "Bracket", lambda n: [n.this]),
     "add": ("t.i + t.bi", "Add", None), "sub": ("t.i - t.bi", "Sub", None), "mul": ("t.i * t.bi", "Mul", None),
     "div": ("t.i / t.bi", "Div", None), "intdiv": ("t.i // t.bi", "IntDiv", None), "mod": ("t.i % t.bi", "Mod", None),
     "pow": ("t.i ** t.bi", "Pow", lambda n: [n.this, n.expression]),
@@ -446,8 +530,10 @@ def _classify_meta(chk, nodec):
 
     S = sg()
     exp = S["exp"]
-    sql, want_cls, kids = NODEC_SAMPLES[nodec]
+    sql, want_cls, kids = NODEC_SAMPLES[nodec][:3]
     node = S["sqlglot"].parse_one(f"SELECT {sql} FROM t", dialect="duckdb").selects[0]
+    if len(NODEC_SAMPLES[nodec]) > 3:
+        node = NODEC_SAMPLES[nodec][3](node)  # the modelled node sits inside a wrapper (Window / IgnoreNulls)
     info = {"class": type(node).__name__}
     if type(node).__name__ != want_cls:
         chk.broken.append({"kind": "translator", "what": f"C16 translator: structure changed: `{sql}` parses to "
@@ -492,6 +578,10 @@ def _classify_meta(chk, nodec):
         return ".literal", info
     if name == "_annotate_extract" and len(args) == 1:
         return ".extract", info
+    if name == "_annotate_subquery" and len(args) == 1:
+        return ".subquery", info
+    if name == "_annotate_bracket" and len(args) == 1:
+        return ".bracket", info
     if name == "_set_type" and len(args) == 2 and not kwargs:
         if args[1] is node.args.get("to") and args[1] is not None:
             return ".castTo", info
@@ -500,8 +590,9 @@ def _classify_meta(chk, nodec):
             return bad(f"sets the unmodelled type {args[1]!r}")
         return f".returns .{t}", info
     if name == "_annotate_by_args":
-        if kwargs.get("array"):
-            return bad("by-args with array=True")
+        is_array = bool(kwargs.get("array"))
+        if is_array and kwargs.get("promote"):
+            return bad("by-args with array=True and promote=True")
         if set(kwargs) - {"promote", "array"}:
             return bad(f"by-args with unknown options {sorted(kwargs)}")
         from sqlglot.helper import ensure_list
@@ -516,6 +607,8 @@ def _classify_meta(chk, nodec):
         if ids != [i for i in cid if i in ids]:
             return bad("by-args visits the children in a different order")
         mask = ", ".join("true" if c in ids else "false" for c in cid)
+        if is_array:
+            return f".arrayOf [{mask}]", info
         return f".byArgs [{mask}] {'true' if kwargs.get('promote') else 'false'}", info
     return bad(f"annotator calls {name}")
 
@@ -734,6 +827,9 @@ def translate(chk: Check, table) -> str:
 
     for op in [o for o in UN if o not in UN_WRAP]:
         emit("duckUn_" + op, [((ca,), table[("un", op, ca)]) for ca in ETY if ("un", op, ca) in table], 1)
+    for op in PRED3:
+        emit("duckPred3_" + op, [((ca, cb, cc), table[("pred3", op, ca, cb, cc)]) for ca in ETY for cb in ETY for cc in ETY
+                                 if ("pred3", op, ca, cb, cc) in table], 3)
     for k in NARY:
         emit("duckJoin_" + k, [((ca, cb), table[("join", k, ca, cb)]) for ca in ETY for cb in ETY if ("join", k, ca, cb) in table], 2)
     for op in BIN + TERN:
@@ -744,6 +840,9 @@ def translate(chk: Check, table) -> str:
     for t in CAST_TARGETS:
         w(f"  | .cast .{t} => duckUn_cast_{t}")
     w("  | .cast _ => fun _ => .error")
+    for t in CAST_TARGETS:
+        w(f"  | .tryCast .{t} => duckUn_tryCast_{t}")
+    w("  | .tryCast _ => fun _ => .error")
     w("")
     w("def duckBin : BinK → ETy → ETy → ETy")
     for op in BIN:
@@ -752,6 +851,18 @@ def translate(chk: Check, table) -> str:
     w("def duckTern : TernK → ETy → ETy → ETy")
     for op in TERN:
         w(f"  | .{op} => duckBin_{op}")
+    w("")
+    w("def duckPred3 : Pred3K → ETy → ETy → ETy → ETy")
+    for op in PRED3:
+        w(f"  | .{op} => duckPred3_{op}")
+    w("")
+    w("def duckWin0 : Win0K → ETy")
+    for k in WIN0:
+        w(f"  | .{k} => .{table[('win0', k)]}")
+    w("")
+    w("def duckNumLit : NumLitK → ETy")
+    for k in NUMLIT:
+        w(f"  | .{k} => .{table[('numlit', k)]}")
     w("")
     w("def duckJoin : NaryK → ETy → ETy → ETy")
     for k in NARY:
@@ -787,6 +898,9 @@ def translate(chk: Check, table) -> str:
     w("  duckBin := duckBin")
     w("  duckTern := duckTern")
     w("  duckJoin := duckJoin")
+    w("  duckPred3 := duckPred3")
+    w("  duckWin0 := duckWin0")
+    w("  duckNumLit := duckNumLit")
     w("  duckCol := duckCol")
     w("")
     w("end SqlglotModel.Generated.C16")
@@ -834,6 +948,8 @@ def child_desc(x):
         return "boolean"
     if k == "col":
         return CLASS_OF[COLS[x[1]][1]]
+    if k == "numlit":
+        return "decimal#" if x[1] == "sci" else ("integer#:overflow" if x[1] == "overflow" else "integer#")
     return class_of_sg(evaluate(x)["sg"])
 
 
@@ -966,10 +1082,15 @@ def gen_expr(rng, depth, want=None, agg="none"):
         if agg == "must":
             num = want in ("integer", "decimal")
             inner = gen_expr(rng, 1, want if want in LEAVES_BY_CLASS and want not in ("null", "interval", "boolean") else "integer", "none")
-            f = rng.choice(["sum", "min", "max", "avg", "count"] if num else ["min", "max", "count"])
+            f = rng.choice(["sum", "min", "max", "avg", "count", "anyValue", "stddev"] if num else
+                           ["min", "max", "count", "anyValue"] + (["groupConcat"] if want == "text" else []) + (["boolAnd", "boolOr"] if want == "boolean" else []))
             return ["un", f, inner]
         if rng.random() < 0.08:
             return ["null"]
+        if want == "integer" and rng.random() < 0.08:
+            return ["numlit", rng.choice(["big", "huge"])]
+        if want == "decimal" and rng.random() < 0.05:
+            return ["numlit", "sci"]
         return list(rng.choice(LEAVES_BY_CLASS[want]))
 
     if depth <= 0 or rng.random() < 0.15:
@@ -980,7 +1101,7 @@ def gen_expr(rng, depth, want=None, agg="none"):
             n = rng.choice([1, 2, 3, 3, 4, 5, 6])
             args = [sub(want if rng.random() < 0.8 else rng.choice(["integer", "decimal", "text", "null"])) for _ in range(n)]
             return ["nary", rng.choice(NARY)] + args
-        k = rng.choice(["caseWhen", "iff", "coalesce", "coalesce", "nullif", "greatest", "least"])
+        k = rng.choice(["caseWhen", "iff", "coalesce", "coalesce", "nullif", "greatest", "least", "arrayElem"])
         a, b = sub(want), sub(want if rng.random() < 0.8 else rng.choice(["integer", "decimal", "text", "null"]))
         if k in ("caseWhen", "iff"):
             return ["tern", k, sub("boolean"), a, b]
@@ -990,9 +1111,21 @@ def gen_expr(rng, depth, want=None, agg="none"):
              "boolean": ["boolean"], "date": ["date"], "timestamp": ["timestampntz"]}.get(want)
         if t:
             src = rng.choice(["integer", "decimal", "text", want])
-            return ["un", "cast_" + rng.choice(t), sub(src)]
+            return ["un", rng.choice(["cast_", "cast_", "tryCast_"]) + rng.choice(t), sub(src)]
+    if r < 0.25 and depth >= 1 and agg != "must":
+        return ["un", "subq", gen_expr(rng, depth - 1, want if want in LEAVES_BY_CLASS else "integer", rng.choice(["none", "must"]))]
     if r < 0.30 and agg == "window" and want in ("integer", "decimal", "date", "text", "timestamp"):
-        f = rng.choice(["sum", "max", "min", "count", "avg"])
+        if rng.random() < 0.35:
+            if want == "integer" and rng.random() < 0.5:
+                return ["win0", rng.choice(["rowNumber", "rank", "denseRank"])]
+            if want == "decimal" and rng.random() < 0.3:
+                return ["win0", rng.choice(["cumeDist", "percentRank"])]
+            return ["un", rng.choice(["lag", "lead", "firstValue", "lastValue"]), sub(want, depth - 1, "none")]
+        f = rng.choice(["sum", "max", "min", "count", "avg", "anyValue", "stddev", "variance", "approxDistinct"])
+        if f in ("stddev", "variance") and want != "decimal":
+            f = "max"
+        if f == "approxDistinct" and want != "integer":
+            f = "anyValue"
         wrap = rng.choice(UN_WRAP)
         if f == "count":
             return ["un", wrap, ["un", f, sub(rng.choice(["integer", "text", "date"]), depth - 1, "none")]] if want == "integer" else leaf()
@@ -1000,7 +1133,16 @@ def gen_expr(rng, depth, want=None, agg="none"):
             f = "max"
         return ["un", wrap, ["un", f, sub(want, depth - 1, "none")]]
     if want == "boolean":
-        k = rng.choice(["cmp", "cmp", "and", "or", "not", "isNull", "like"])
+        k = rng.choice(["cmp", "cmp", "and", "or", "not", "isNull", "like", "pred3", "distinct", "exists"])
+        if k == "pred3":
+            c = rng.choice(["integer", "decimal", "text", "date"])
+            return ["pred3", rng.choice(PRED3), sub(c), sub(c), sub(c if rng.random() < 0.8 else "integer")]
+        if k == "distinct":
+            c = rng.choice(["integer", "decimal", "text", "date", "timestamp"])
+            return ["bin", rng.choice(["isDistinct", "isDistinct", "ilike"]), sub(c), sub(c)] if c != "text" else \
+                ["bin", rng.choice(["isDistinct", "ilike"]), sub("text"), sub("text")]
+        if k == "exists":
+            return ["un", "exists", gen_expr(rng, max(depth - 1, 0), "any", "none")]
         if k == "cmp":
             c = rng.choice(["integer", "decimal", "text", "date", "timestamp"])
             return ["bin", rng.choice(["eq", "neq", "lt", "le", "gt", "ge"]), sub(c), sub(c if rng.random() < 0.7 else rng.choice(["integer", "decimal", "date", "timestamp"]))]
@@ -1066,13 +1208,19 @@ def has_col(e):
     return e[0] == "col" or (not is_leaf(e) and any(has_col(x) for x in e[2:]))
 
 
+def eng_is_null(x):
+    """the engine types the operand SQLNULL (a NULL literal, CASE WHEN c THEN NULL ELSE NULL END, COALESCE(NULL, NULL), ...)"""
+    return x[0] == "null" or (not is_leaf(x) and ety_of_duck(duck_typeof(render(x))) == "null")
+
+
 def null_safe(e):
+    """mirror of Model/Types.lean `nullSafe`: no SQLNULL-typed operand directly under a NULL-propagating operator"""
     if is_leaf(e):
         return True
     ks = e[2:]
-    if not (e[0] == "bin" and e[1] == "coalesce"):
+    if e[0] != "nary" and not (e[0] == "bin" and e[1] == "coalesce"):
         direct = ks[:1] if e[0] == "tern" else ks
-        if any(x[0] == "null" for x in direct):
+        if any(eng_is_null(x) for x in direct):
             return False
     return all(null_safe(x) for x in ks)
 
@@ -1227,7 +1375,8 @@ def correspond(chk: Check, depth1: list) -> list:
     n1 = chk.pick(2500, len(d1))
     if n1 < len(d1):
         d1 = rng.sample(d1, n1)
-    exprs = d1 + random_exprs(chk, chk.pick(1500, 20000)) + column_reference_exprs(chk) + nary_probe_exprs()
+    exprs = d1 + random_exprs(chk, chk.pick(1500, 20000)) + column_reference_exprs(chk) + nary_probe_exprs() + \
+        [["numlit", k] for k in NUMLIT] + [["win0", k] for k in WIN0]
     schema_line = json.dumps({"schema": [[c, t] for c, (_, t) in COLS.items()]})
     dec_cases = decimal_grid(chk)
     lines = [schema_line] + [json.dumps(to_model(e)) for e in exprs] + [json.dumps({"census": True})] + \
@@ -1328,7 +1477,7 @@ def correspond(chk: Check, depth1: list) -> list:
                     hints.append(e)
             if m_wf == "true":
                 wf_n += 1
-                if real_ty == m_final and real_ety == m_cmp and verdict(e):
+                if real_ty == m_final and real_ety == m_cmp and (verdict(e) or ("",))[0] == "class":
                     # cannot happen while theorem + correspondence hold; kept as an internal consistency check
                     raise HarnessError(f"well-formed expression disagrees although model and both real sides correspond: {r['sql']}")
     chk.corr_cases += len(exprs)
@@ -1344,7 +1493,7 @@ def search(chk: Check, depth1: list, hints: list, budget_s: float) -> None:
     rng = chk.rng
     d1 = [e for e in depth1 if not has_raw(e) and parses_back(e)]
     if chk.quick and not chk.broken:
-        d1 = rng.sample(d1, min(len(d1), 4000))
+        d1 = rng.sample(d1, min(len(d1), 3000))
 
     def one(e, source):
         nonlocal tried, found, skipped
@@ -1413,10 +1562,16 @@ def _sweep_desc(name):
     return CLASS_OF[COLS[name][1]] if name in COLS else SWEEP_LEAVES[name]
 
 
-def sweep_combos():
+def sweep_combos(quick=False):
     cols = list(COLS)
     l1 = [(x,) for x in cols + list(SWEEP_LEAVES)]
-    l2 = ([(a, b) for a in cols for b in cols] + [(a, "2") for a in cols] + [("2", a) for a in cols]
+    num = ("ti", "si", "i", "bi", "db", "de")
+    pairs = [(a, b) for a in cols for b in cols]
+    if quick:  # same-type pairs, all numeric pairs and a spread of mixed ones; thorough: all 10 x 10
+        keep = {("v", "i"), ("i", "v"), ("da", "i"), ("i", "da"), ("ts", "da"), ("da", "ts"), ("bo", "i"), ("i", "bo"), ("v", "da"),
+                ("v", "db"), ("ts", "i"), ("bo", "v")}
+        pairs = [(a, b) for a, b in pairs if a == b or (a in num and b in num) or (a, b) in keep]
+    l2 = (pairs + [(a, "2") for a in cols] + [("2", a) for a in cols]
           + [(a, "'abc'") for a in ("v", "i", "da")] + [(a, "1.5") for a in ("i", "bi", "db", "de")])
     l3 = [(a, a, a) for a in cols] + [("v", "i", "i"), ("v", "v", "v"), ("v", "i", "2"), ("v", "2", "2"), ("i", "i", "db"), ("db", "i", "i"),
                                       ("v", "'abc'", "'abc'"), ("da", "da", "i"), ("i", "2", "2"), ("db", "2", "2"), ("bo", "i", "i"),
@@ -1433,7 +1588,7 @@ def sweep_items(chk: Check):
     S = sg()
     exp = S["exp"]
     modelled = {v[1] for v in NODEC_SAMPLES.values()}
-    combos = sweep_combos()
+    combos = sweep_combos(chk.quick and not chk.broken)
     lg = logging.getLogger("sqlglot")
     old = lg.level
     lg.setLevel(logging.CRITICAL)
@@ -1671,7 +1826,7 @@ def run(chk: Check) -> None:
         if proved:
             raise
         chk.note(f"model driver unavailable ({e}); continuing with the search on the real code")
-    budget = chk.pick(8, 240)
+    budget = chk.pick(6, 240)
     if chk.broken:
         budget *= 3
     search(chk, depth1, hints, budget)
